@@ -733,9 +733,9 @@ M('c14-release-conditional-record', ['C14', 'C02', 'C12'],
   "                        self._maybe_removed_dirs.add(parent)\n")])
 M('c04-apply-own-record', ['C04', 'C01'], ['R4.6', 'R1.9'], [(FB,
   "        self._apply_cached_suboperations(cached_operation)\n"
-  "        operation.suboperations = cached_operation.suboperations",
+  "        operation.file_comparison_result = file_comparison_result\n",
   "        self._apply_cached_suboperations(operation)\n"
-  "        operation.suboperations = cached_operation.suboperations")])
+  "        operation.file_comparison_result = file_comparison_result\n")])
 M('c12-cache-file-dirs-other-set', ['C12', 'C16'], ['R12.4', 'R16.7'], [(FB,
   "            if norm_cased_dir not in norm_cased_created_dirs:\n                created_dirs.append(dir_)",
   "            if norm_cased_dir not in norm_cased_error_created_dirs:\n                created_dirs.append(dir_)")])
